@@ -28,6 +28,7 @@ BUILD = os.path.join(VERIF, 'build')
 EXT = os.path.join(BUILD, 'ext')
 TOOLCHAIN = '1.98.1-x86_64-unknown-linux-gnu'
 RLIMIT = os.environ.get('VERIF_RLIMIT', '30')
+THEOREM_CANARY_RLIMIT = '10'  # spec-level theorems: `ensures false` with the same hypotheses and proof text must not verify
 CANARY_RLIMIT = '1'  # a canary (`ensures false`) only has to be NOT provable; resource-out counts as not provable
 CANARY_POOL = cf.ThreadPoolExecutor(max_workers=10)
 
@@ -188,13 +189,16 @@ def process_unit(name, canary, bdir):
     ur.path = path
     ur.scan = scan_assumptions(text)
     cfuts = []
-    if canary and contracted:
+    tfuts = []
+    if canary:
         try:
             ctext, corigins, cex, _ = extract.build_unit(unit, REPO, udir, canary=True)
             cpath = os.path.join(bdir, name + '_canary.rs')
             open(cpath, 'w').write(ctext)
             for f in contracted:
                 cfuts.append((f, CANARY_POOL.submit(run_verus, cpath, externs, ('--verify-root', '--verify-function', f.qual + '__canary', '--num-threads', '1'), '1', CANARY_RLIMIT)))
+            for tname in cex.theorem_canaries:
+                tfuts.append((tname, CANARY_POOL.submit(run_verus, cpath, externs, ('--verify-root', '--verify-function', tname + '__canary', '--num-threads', '1'), '1', THEOREM_CANARY_RLIMIT)))
         except ExtractError as e:
             ur.status = 'undecided'
             ur.reason = 'canary extraction: %s' % e
@@ -246,7 +250,7 @@ def process_unit(name, canary, bdir):
         ur.failed_groups = failed_groups
         return ur
     # ---- vacuity canary: a copy of every contracted function with `ensures false` must NOT verify
-    if cfuts:
+    if cfuts or tfuts:
         vac = []
         for f, fut in cfuts:
             ccmd, cr, cjs, cwall = fut.result()
@@ -257,8 +261,17 @@ def process_unit(name, canary, bdir):
                 continue
             if all(cg[g].get('success') for g in key):
                 vac.append(f.qual)
+        for tname, fut in tfuts:
+            ccmd, cr, cjs, cwall = fut.result()
+            cg = fn_breakdown(cjs) if cjs else {}
+            key = [g for g in cg if g.split('::', 1)[-1] == tname + '__canary']
+            if not key:
+                vac.append(tname + ' (theorem canary not run: ' + (cr.stderr[-300:] if cr.stderr else 'no output') + ')')
+                continue
+            if all(cg[g].get('success') for g in key):
+                vac.append(tname)
         ur.canary_ok = not vac
-        ur.canary_checked = [f.qual for f in contracted]
+        ur.canary_checked = [f.qual for f in contracted] + [t for t, _ in tfuts]
         if vac:
             ur.status = 'undecided'
             ur.reason = 'vacuity canary: `ensures false` verified for %s -> contradictory precondition or unreachable exit' % ', '.join(vac)
